@@ -93,6 +93,31 @@ void vary_machine(Rng& r, Cfg& c) {
     if (c.tdamp > 0) c.tdamp = 2.0 / (d.fs * r.loguniform(2e-3, 2e-2) * d.steps);
 }
 
+// Widen a swarm configuration towards the whole documented domain. Only for oracles that compare two executions of the same
+// binary bit for bit (C11 without renormalisation, C12, C14, C19 flush): they need no error model, so unusual numbers cannot
+// raise alarms; what they can do is reach code the tame swarm never enters.
+void wild_cfg(Rng& r, Cfg& c) {
+    const Cfg before = c;
+    unsigned nsteps = derive(c).laststep;
+    if (r.chance(0.4)) c.zoom = std::round(r.uniform(0.2, 3) * 100) / 100;
+    if (r.chance(0.35)) { c.shiftx = std::round(r.uniform(-0.35, 0.35) * c.grid * 4) / 4; c.shifty = std::round(r.uniform(-0.35, 0.35) * c.grid * 4) / 4; }
+    if (r.chance(0.3)) c.pssize = std::round(r.uniform(4, 20) * 4) / 4;
+    if (r.chance(0.3)) c.padding = r.chance(0.5) ? (double)r.range(2, 8) : std::round(r.uniform(2, 8) * 100) / 100;
+    if (r.chance(0.2)) c.VRF = std::round(r.loguniform(3e5, 1e7));
+    if (r.chance(0.15)) c.interp = 1;
+    if (r.chance(0.3)) { c.alpha1 = std::round(r.uniform(-0.05, 0.05) * 1e4) / 1e4; if (r.chance(0.5)) c.alpha2 = std::round(r.uniform(-0.5, 0.5) * 1e3) / 1e3; }
+    if (c.rf_mod_ampl > 0 && r.chance(0.3)) c.rf_mod_ampl = std::round(r.uniform(1, 300) * 10) / 10;     // degrees: beyond +-180 too
+    if (r.chance(0.2)) c.grid = c.grid | 1;                                                               // odd grid
+    if (r.chance(0.5)) vary_machine(r, c);
+    if (r.chance(0.2)) { for (int t = 0; t < 20; t++) { c.H = (double)r.pick(std::vector<long>{r.range(20, 400), r.range(400, 3000), 65, 184}); if (derive(c).spacing_ps >= 1.0) break; c.H = before.H; } }
+    if (r.chance(0.15) && c.tdamp != 0) c.tdamp = r.loguniform(2e-4, 5e-2);
+    Derived d = derive(c);
+    // run-time and stability bounds of the harness: transform length, steps per period, per-step decrement inside the stable range
+    if (d.wake_nmax > 20000 || d.padded_bins > 20000 || d.steps < 10 || d.spacing_ps < 1.0 || !(d.e1 < 0.45 * d.delta_p * d.delta_p)) { c = before; return; }
+    c.rotations = nsteps > 0 ? (nsteps - 0.5) / d.steps : 0;
+    if (derive(c).laststep != nsteps) c = before;
+}
+
 std::string gen_tracking(Rng& r, const Cfg& c, long n) {
     Derived d = derive(c);
     std::string s;
